@@ -1,5 +1,8 @@
-(* C15 — Epoll mode: connection resources released exactly once, never accumulate.  Pinned statements. *)
-From KV Require Import Lib.Bytes Model.Epoll Proofs.Epoll.
+(* C15 — Epoll mode: connection resources released exactly once, never accumulate.  Pinned statements.
+   (Model/Epoll.v after the repair of finding F25: the worker hands the record of a closed connection back through a
+   graveyard, the event loop frees what it finds there after it has looked at every event of a batch, and wakes up at
+   least once per timeout period.) *)
+From KV Require Import Lib.Bytes Model.Epoll Proofs.Epoll Proofs.EpollReclaim.
 
 Definition count_label (p : elabel -> bool) (tr : list elabel) : nat := length (filter p tr).
 Definition is_free (c : nat) (l : elabel) : bool := match l with LFree c' => Nat.eqb c c' | _ => false end.
@@ -21,6 +24,30 @@ Print Assumptions C15_at_most_once.
 Theorem C15_freed_is_dead : forall tr s c k, run ep_init tr = Some s -> nth_error (e_conns s) c = Some k ->
   k_rec k = AFreed -> k_jobs k = [] /\ k_registered k = false /\ k_stream k = false /\ k_in_batch k = false.
 Proof. exact freed_is_dead. Qed.
+Print Assumptions C15_freed_is_dead.
+
+(* the loop frees only what a worker has handed back, when it has no unexamined event left: the record is allocated,
+   its connection deregistered, the stream dropped, `closed` set, no job exists and no event for it is pending -
+   nobody holds a way to reach the record any more *)
+Theorem C15_freed_only_from_graveyard : forall tr s c s', run ep_init tr = Some s -> step s (LFree c) = Some s' ->
+  e_loop s = EBatch /\ forallb (fun k => negb (k_in_batch k)) (e_conns s) = true /\
+  exists k, nth_error (e_conns s) c = Some k /\ k_grave k = true /\
+            k_rec k = ALive /\ k_registered k = false /\ k_stream k = false /\ k_closed k = true /\
+            k_jobs k = [] /\ k_in_batch k = false.
+Proof. exact freed_only_from_graveyard. Qed.
+Print Assumptions C15_freed_only_from_graveyard.
+
+(* never accessed after being freed: once LFree c has happened, no step that is enabled later, in any interleaving,
+   is one whose code touches the record of c (the labels listed in [touches]) *)
+Definition touches (l : elabel) (c : nat) : bool :=
+  match l with
+  | LEvent c' _ | LFree c' | LJobStart c' | LRearm c' | LDel c' | LStreamDrop c' | LClosedStore c' | LGrave c' => Nat.eqb c c'
+  | LAccept _ | LClientSend _ | LClientClose _ | LWait _ | LBatchEnd => false
+  end.
+Theorem C15_never_accessed_after_free : forall tr c tr2 s l s',
+  run ep_init (tr ++ LFree c :: tr2) = Some s -> step s l = Some s' -> touches l c = false.
+Proof. exact no_access_after_free. Qed.
+Print Assumptions C15_never_accessed_after_free.
 
 (* sockets: once every connection has ended and the server is quiescent no stream is open - also
    when EPOLL_CTL_ADD failed *)
@@ -28,18 +55,78 @@ Theorem C15_no_open_streams : forall tr s, run ep_init tr = Some s -> all_ended 
 Proof. exact no_open_streams. Qed.
 Print Assumptions C15_no_open_streams.
 
-(* records: the corresponding statement is FALSE of the faithful model (and of the code): finding F25.
-   After EPOLL_CTL_DEL no event carries the token any more, so the record is freed only if an event
-   for it was already in the loop's current batch *)
+(* records (false before the repair, finding F25): quiescent, every connection ended, nothing waiting in the graveyard
+   => no record is allocated *)
+Theorem C15_no_leak : forall tr s, run ep_init tr = Some s -> all_ended s = true -> graveyard_empty s = true ->
+  live_records s = 0.
+Proof. exact no_leak. Qed.
+Print Assumptions C15_no_leak.
+
+(* and the graveyard does get emptied, by the loop alone.  A record in the graveyard: if the loop waits, the timeout
+   wake-up [LWait []] followed by the free and the end of the batch is enabled; if the loop is in a batch and has
+   looked at all its events, the free is enabled *)
+Theorem C15_reclaim : forall tr s c k, run ep_init tr = Some s -> nth_error (e_conns s) c = Some k ->
+  k_grave k = true ->
+  match e_loop s with
+  | EWaiting => exists s', run s [LWait []; LFree c; LBatchEnd] = Some s' /\ rec_live s' c = false /\ e_loop s' = EWaiting
+  | EBatch => forallb (fun k => negb (k_in_batch k)) (e_conns s) = true ->
+              exists s', step s (LFree c) = Some s' /\ rec_live s' c = false
+  end.
+Proof. exact reclaim_enabled. Qed.
+Print Assumptions C15_reclaim.
+
+(* one wake-up empties the whole graveyard: the timeout, one LFree per graveyard entry (in index order), end of batch *)
+Definition in_graveyard (s : estate) (c : nat) : bool :=
+  match nth_error (e_conns s) c with Some k => k_grave k | None => false end.
+Definition wakeup (s : estate) : list elabel :=
+  LWait [] :: map LFree (filter (in_graveyard s) (seq 0 (length (e_conns s)))) ++ [LBatchEnd].
+Theorem C15_reclaim_all : forall tr s, run ep_init tr = Some s -> e_loop s = EWaiting ->
+  exists s', run s (wakeup s) = Some s' /\ graveyard_empty s' = true /\ e_loop s' = EWaiting.
+Proof. exact reclaim_sweep. Qed.
+Print Assumptions C15_reclaim_all.
+Theorem C15_wakeup_frees : forall s c, count_label (is_free c) (wakeup s) = if in_graveyard s c then 1 else 0.
+Proof. exact reclaim_trace_frees. Qed.
+
+(* "after connections have ended, no per-connection memory or descriptor remains held": from a quiescent state in which
+   every connection has ended, that one wake-up (at most one timeout period away) leaves no record, no stream *)
+Theorem C15_ended_reclaimed : forall tr s, run ep_init tr = Some s -> all_ended s = true ->
+  exists s', run s (wakeup s) = Some s' /\
+             all_ended s' = true /\ graveyard_empty s' = true /\ live_records s' = 0 /\ open_streams s' = 0.
+Proof. exact all_ended_reclaimed. Qed.
+Print Assumptions C15_ended_reclaimed.
+
+(* the history of finding F25 (the connection is closed by its job while the loop waits: no event will ever carry its
+   token again).  It no longer ends in a quiescent state - the job still has to hand the record back - and with the
+   job's last step and the loop's next wake-up the record is freed *)
 Definition f25_trace : list elabel :=
   [LAccept true; LClientSend 0; LWait [0]; LEvent 0 ODispatched; LBatchEnd; LJobStart 0; LDel 0; LStreamDrop 0; LClosedStore 0].
-Theorem C15_no_leak_refuted : exists s, run ep_init f25_trace = Some s /\ all_ended s = true /\ live_records s = 1.
-Proof. eexists. vm_compute. repeat split. Qed.
-(* what does hold: records are freed when the loop happens to look at a stale event *)
+Example C15_f25_not_quiescent :
+  match run ep_init f25_trace with Some s => all_ended s | None => true end = false.
+Proof. vm_compute. reflexivity. Qed.
+Example C15_f25_reclaimed :
+  match run ep_init (f25_trace ++ [LGrave 0]) with
+  | Some s => all_ended s && Nat.eqb (live_records s) 1 && negb (graveyard_empty s)
+  | None => false
+  end = true /\
+  match run ep_init (f25_trace ++ [LGrave 0] ++ [LWait []; LFree 0; LBatchEnd]) with
+  | Some s => all_ended s && graveyard_empty s && Nat.eqb (live_records s) 0
+  | None => false
+  end = true /\
+  match run ep_init (f25_trace ++ [LGrave 0]) with Some s => wakeup s | None => [] end = [LWait []; LFree 0; LBatchEnd].
+Proof. vm_compute. repeat split. Qed.
+(* the stale-event path: the loop looks at the stale event (and skips it), then finds the record in the graveyard *)
 Example C15_ex_freed :
   match run ep_init [LAccept true; LClientSend 0; LWait [0]; LEvent 0 ODispatched; LBatchEnd; LClientClose 0; LWait [0]; LJobStart 0;
-                     LDel 0; LStreamDrop 0; LClosedStore 0; LEvent 0 OStale; LFree 0; LBatchEnd] with
+                     LDel 0; LStreamDrop 0; LClosedStore 0; LGrave 0; LEvent 0 OStale; LFree 0; LBatchEnd] with
   | Some s => Nat.eqb (live_records s) 0 && all_ended s
+  | None => false
+  end = true.
+Proof. vm_compute. reflexivity. Qed.
+(* ... and not before: with the stale event still unexamined the free is not enabled *)
+Example C15_ex_free_waits :
+  match run ep_init [LAccept true; LClientSend 0; LWait [0]; LEvent 0 ODispatched; LBatchEnd; LClientClose 0; LWait [0]; LJobStart 0;
+                     LDel 0; LStreamDrop 0; LClosedStore 0; LGrave 0] with
+  | Some s => match step s (LFree 0) with Some _ => false | None => true end
   | None => false
   end = true.
 Proof. vm_compute. reflexivity. Qed.
